@@ -45,7 +45,7 @@ def run(ctx):
   from . import c17
   ctx.borrow(c17.rule_byvalue, "R-C07-NEIGHBOUR")
   from . import c16
-  ctx.borrow(lambda c: c16.rule_once(c, T.bodies(c.repo)), "R-C07-NEIGHBOUR")
+  c16.rule_isolated(ctx, T.bodies(ctx.repo), "R-C07-NEIGHBOUR")
   ctx.expect("R-C07-NEIGHBOUR", 2 + 24, "BatchGCD element-wise + per-curve partitions + one fresh entry per artifact in 24 Check bodies")
   ctx.expect("R-C07-BOUNDS", 7, "seven thresholds")
   ctx.expect("R-C07-EXACT", 29, "29 registered checks")
